@@ -35,7 +35,12 @@ def r08_1(ctx, fx):
             bad = [n for n, sh in fn.exits() if n in r and not all(s.startswith("Some") for s in sh)]
             ctx.ob("R08.1", "on_connection_established/inserted=>event", not bad, site=fn.site(i), cfg=fx.cfg,
                    detail="after inserting a new peer every exit returns Some(ConnectionEstablished); other exits: %s" % [fn.site(n) for n in bad])
-    fn = ctx.fn(fx, TS + "on_connection_closed", "R08.1")
+    # the body that updates the connection map on a close: on_connection_closed itself, or the helper it delegates to
+    ckey = TS + "on_connection_closed"
+    for cand in ("handle_connection_closed",):
+        if fx.has(TS + cand) and fx.fn(TS + "on_connection_closed") is not None and fx.fn(TS + "on_connection_closed").calls(r"TransportService::%s$" % cand):
+            ckey = TS + cand
+    fn = ctx.fn(fx, ckey, "R08.1")
     if fn is not None:
         rm = [c.node for c in field_calls(fn, r"HashMap::remove$", "connections")]
         ev = [n for n, s in fn.aggregates(r"TransportEvent$", "ConnectionClosed")]
@@ -180,10 +185,10 @@ def r08_6(ctx, fx):
     ctx.anchor("R08.6", "writes to ConnectionContext.primary / .secondary", len(writes), 2, cfg=fx.cfg)
     for who, fld, site, src, fn, node, s_ in writes:
         if fld == "primary":
-            ok = who.endswith("on_connection_closed") and "@Some" in str(src)
+            ok = bool(re.search(r"(on|handle)_connection_closed$", who)) and "@Some" in str(src)
             why = "primary may only be replaced by the secondary handle taken out in on_connection_closed"
         else:
-            ok = who.endswith("on_connection_established") or who.endswith("on_connection_closed")
+            ok = who.endswith("on_connection_established") or bool(re.search(r"(on|handle)_connection_closed$", who))
             if who.endswith("on_connection_established"):
                 # the stored value is Some(handle parameter)
                 sh = fn.shape(s_["rv"]["o"]) if s_["rv"]["r"] == "use" else set()
